@@ -7,6 +7,18 @@ CLAIMED = {
    text="Theorems (Coq 8.16, generic in the dimension) about an executable Gallina model of the Morton index code; the model is extracted and run against the real TbfMortonSpaceIndex/TbfHilbertSpaceIndex on exhaustive small grids and random deep cells, and the implementation's outputs are checked against a brute-force statement of the property.",
    note="Trusted: Coq kernel, extraction (ExtrOcamlBasic), OCaml driver, C++ harness h_index, python generators/oracle. Modelled by hand, tied by correspondence on every run.",
    technique="Coq proof of index algebra + extracted-model differential test + brute-force oracle"),
+ "C07": dict(level="proof", ref="DESIGN.md §6 C07",
+   text="Theorems about the executable Gallina model of TbfParticleSorter / TbfTree's constructor (tree invariant tree_ok, decided by tree_okb); the extracted model is run against the real constructor on occupancy-exhaustive small trees and random trees in dimensions 1..4 and the dumped structure is re-checked by an independent oracle.",
+   note="Trusted: Coq kernel, extraction, OCaml driver, harness h_tree, python generators/oracle. std::sort modelled by a merge sort (comparisons are made up to the order of particles inside a leaf).",
+   technique="Coq proof of tree invariant + extracted-model differential test + oracle"),
+ "C16": dict(level="proof", ref="DESIGN.md §6 C16",
+   text="Theorems (all trees satisfying the invariant, all query indices) about the Gallina model of lower_bound_indexes, the in-group lookups and findGroupWithCell/Leaf; extracted model run against the real lookups with present/absent/gap/out-of-range queries; answers re-checked by brute force on the dumped tree.",
+   note="Trusted: Coq kernel, extraction, OCaml driver, harness h_tree, python generators/oracle. std::lower_bound over groups modelled by the same binary-search loop.",
+   technique="Coq proof of lookup correctness + extracted-model differential test + oracle"),
+ "C06": dict(level="proof", ref="DESIGN.md §6 C06",
+   text="Theorems about the Gallina model of the constructor (every particle once, in the leaf of its index); extracted model vs real constructor; stored data compared bit for bit with the input, initial rhs/cells checked zero.",
+   note="Trusted: as C07. The floating-point position->coordinate step is modelled separately (see DESIGN.md C06); dyadic boxes here.",
+   technique="Coq proof + extracted-model differential test + bit-exact data oracle"),
 }
 NOT_YET = {}
 ALL = ["C%02d" % i for i in range(1, 21)]
